@@ -11,4 +11,3 @@ for p in "$@"; do
   VERIF_REPO=$w VERIF_SEED=1 VERIF_TIER=quick /verif/check $p 2>&1 | grep "VIOLATION\|quick:\|Error" | cut -c1-300 | head -4
 done
 rm -rf $w
-( cd /verif && git checkout -q lean/DawgieVerif/Generated )
